@@ -26,6 +26,8 @@ M = "partitura.utils.music"
 
 
 def run(ctx):
+    from ..rules import extra as _X5
+    _X5.rule_transpose_direction_mirror(ctx)
     from ..rules import extra as _X4
     _X4.rule_unison_shortcut_in_transpose_note(ctx)
     prog = ctx.prog
